@@ -1,17 +1,17 @@
 (* Switches that select between the code as it was in /repo originally (false) and the repairs
-   (true).  last_n0_guard and one_closes are committed in /repo (so they are true here);
-   xslices.Runs is not repaired yet.  The models consult a [config] value; [current_cfg] is what the correspondence
+   (true).  All three repairs are committed in /repo, so all three are true here.  The models consult a [config] value; [current_cfg] is what the correspondence
    check runs, [fixed_cfg] is what the main theorems are proved for.  Flipping a definition below
    to [true] after the Go fix makes [current_cfg] coincide with the fixed behaviour for that item.
 
    last_n0_guard      : iterator.Last / stream.Last: `if n <= 0 { drain the input; return empty }`
                         (today: n = 0 panics with integer divide by zero, n < 0 panics in make).
    one_closes         : stream.One has `defer s.Close()` (today: never closes).
-   xslices_runs_fixed : xslices.Runs appends s[start:i] in the else-branch and appends s[start:]
-                        at the end iff len(s) > 0 (today: a leading run of length one is lost). *)
+   xslices_runs_fixed : xslices.Runs starts with `end := 1` and appends s[start:] at the end iff
+                        len(s) > 0 (originally `end := 0 ... if end > 0`: a leading run of length
+                        one was lost). *)
 Definition last_n0_guard : bool := true.
 Definition one_closes : bool := true.
-Definition xslices_runs_fixed : bool := false.
+Definition xslices_runs_fixed : bool := true.
 
 Record config := mkConfig { cfg_last_guard : bool; cfg_one_closes : bool; cfg_xs_runs_fixed : bool }.
 
